@@ -25,6 +25,7 @@ import (
 	"time"
 
 	cs "github.com/lianxiangcloud/linkchain/consensus"
+	"github.com/lianxiangcloud/linkchain/libs/autofile"
 	"github.com/lianxiangcloud/linkchain/libs/common"
 	"github.com/lianxiangcloud/linkchain/libs/crypto"
 	"github.com/lianxiangcloud/linkchain/libs/crypto/merkle"
@@ -57,8 +58,8 @@ const (
 const (
 	walName         = "wal"
 	maxMsgSizeBytes = 1048576 + 4096 // consensus/wal.go: reactor maxMsgSize plus the WAL envelope allowance
-	exhaustiveLimit = 4096        // logs up to this size get every truncation offset
-	bufioSize       = 4096 * 10   // libs/autofile/group.go: size of the head's bufio.Writer
+	exhaustiveLimit = 4096           // logs up to this size get every truncation offset
+	bufioSize       = 4096 * 10      // libs/autofile/group.go: size of the head's bufio.Writer
 	// a height no generated log ever writes; the embedded ("sled") frames carry it
 	fakeHeight = uint64(1)<<40 + 7
 )
@@ -550,7 +551,11 @@ func writeLog(t vstat.TB, dir string, recs []*rec, ops []opRec, rotate func(i in
 		allOps = append(allOps, op)
 	}
 	closeWAL(w, true) // flushes what is still buffered
+	return finishLog(t, dir, all, allOps)
+}
 
+// finishLog reads the files a writer left and matches them, byte by byte, with the records written.
+func finishLog(t vstat.TB, dir string, all []*rec, allOps []opRec) *walLog {
 	files, err := readGroupFiles(dir)
 	if err != nil {
 		t.Fatalf("reading the written log: %v", err)
@@ -607,6 +612,65 @@ func writeLog(t vstat.TB, dir string, recs []*rec, ops []opRec, rotate func(i in
 		return nil
 	}
 	return lg
+}
+
+// rotWriter stands between the real WALEncoder and the real autofile.Group, exactly where baseWAL has the group itself,
+// and lets the group's size check (Group.RotateFile, run by the ticker goroutine of a started group) fire after ANY single
+// Group.Write: the check does not know where a record ends.
+type rotWriter struct {
+	g     *autofile.Group
+	k     int
+	after func(k int) bool
+	rots  []int
+}
+
+func (w *rotWriter) Write(p []byte) (int, error) {
+	n, err := w.g.Write(p)
+	w.k++
+	if err == nil && w.after(w.k) {
+		w.g.RotateFile()
+		w.rots = append(w.rots, w.k)
+	}
+	return n, err
+}
+
+// writeLogPerWrite writes the records like baseWAL.Write / WriteSync do (real encoder, real group, Flush for the synced ones)
+// with the rotation schedule owned at the granularity of single writes to the group.
+func writeLogPerWrite(t vstat.TB, dir string, recs []*rec, ops []opRec, after func(k int) bool) (*walLog, []int) {
+	if err := os.MkdirAll(dir, 0700); err != nil {
+		t.Fatalf("mkdir: %v", err)
+	}
+	g, err := autofile.OpenGroup(filepath.Join(dir, walName))
+	if err != nil {
+		t.Fatalf("OpenGroup: %v", err)
+	}
+	rw := &rotWriter{g: g, after: after}
+	enc := cs.NewWALEncoder(rw)
+	all := append([]*rec{{msg: cs.EndHeightMessage{Height: 0}, kind: "endheight", sync: true, isMarker: true, height: 0}}, recs...)
+	all[0].desc = describe(all[0].msg)
+	allOps := append([]opRec{{Kind: "endheight", Sync: true}}, ops...)
+	var wpan interface{}
+	for _, r := range all {
+		func() {
+			defer func() { wpan = recover() }()
+			if err := enc.Encode(&cs.TimedWALMessage{Time: time.Now(), Msg: r.msg}); err != nil {
+				panic(err)
+			}
+			if r.sync {
+				if err := g.Flush(); err != nil {
+					panic(err)
+				}
+			}
+		}()
+		if wpan != nil {
+			g.Close()
+			vstat.Violation(t, P, "write-panic", "writing %s panicked: %v", r.desc, wpan)
+			return nil, nil
+		}
+	}
+	g.Flush()
+	g.Close()
+	return finishLog(t, dir, all, allOps), rw.rots
 }
 
 // ---------------------------------------------------------------- reading a (damaged) log back through the code under test
@@ -1352,6 +1416,43 @@ func runLog(t *rapid.T) {
 			"truncation_exhaustive": exhaustive, "alterations": len(alts), "damaged_reads": c.nEvals})
 	}
 }
+
+// runRotationSchedule: an INTACT log whose files were cut by the size check at generated points between single writes to the
+// group must be read back completely: every marker written is found, and what follows it is what was written after it.
+func runRotationSchedule(t *rapid.T) {
+	vstat.Eval()
+	dir := newCaseDir()
+	defer os.RemoveAll(dir)
+	st := &genState{height: uint64(rapid.IntRange(1, 70000).Draw(t, "h0"))}
+	st.big = rapid.IntRange(0, 5).Draw(t, "big") == 0
+	nmsg := rapid.IntRange(2, 20).Draw(t, "nmsg")
+	var recs []*rec
+	var ops []opRec
+	for i := 0; i < nmsg; i++ {
+		r, op := genMessage(t, st, false)
+		recs, ops = append(recs, r), append(ops, op)
+	}
+	every := rapid.SampledFrom([]int{1, 2, 3, 5, 8}).Draw(t, "rot_every")
+	after := func(k int) bool { return rapid.IntRange(0, every-1).Draw(t, "rotate_after_write") == 0 }
+	lg, rots := writeLogPerWrite(t, filepath.Join(dir, "w"), recs, ops, after)
+	if lg == nil {
+		return
+	}
+	vstat.Label(fmt.Sprintf("schedule_files_%d", min(len(lg.files), 4)))
+	if len(lg.files) >= 2 && len(lg.markers) >= 2 {
+		vstat.NonTrivial(fmt.Sprintf("%s|%v", lg.opsFingerprint(), rots))
+	}
+	if lg.split {
+		// a record begins in one file and ends in the next although nothing was cut or altered: the newest-file-first search
+		// then starts in the middle of a record
+		vstat.Label("schedule_record_split_across_files")
+	}
+	c := &checker{t: t, lg: lg, afterAlt: -1}
+	c.checkIntact(filepath.Join(dir, "d"))
+	vstat.EvalN(c.nEvals)
+}
+
+func TestRotationSchedule(t *testing.T) { rapid.Check(t, runRotationSchedule) }
 
 func TestWALDamage(t *testing.T) {
 	rapid.Check(t, runLog)
